@@ -47,8 +47,11 @@ type PipelinedMemDB struct {
 	flushingMemDB     *MemDB // the flushingMemDB is not wrapped by a mutex, because there is no data race in it.
 	len, size         int    // len and size records the total flushed and onflushing memdb.
 	generation        uint64
-	entryLimit        uint64
-	flushOption       flushOption
+	// flushErr is the error of a failed flush. The mutations of that flush are gone from the buffer,
+	// so every later Flush and FlushWait keeps reporting it and the transaction cannot commit.
+	flushErr    error
+	entryLimit  uint64
+	flushOption flushOption
 	// prefetchCache is used to cache the result of BatchGet, it's invalidated when Flush.
 	// the values are wrapped by util.Option.
 	//   None -> not found
@@ -295,6 +298,10 @@ func (p *PipelinedMemDB) Flush(force bool) (bool, error) {
 	// invalidate the batch get cache whether the flush is really triggered.
 	p.batchGetCache = nil
 
+	if p.flushErr != nil {
+		return false, p.flushErr
+	}
+
 	if p.memDB.IsStaging() {
 		return false, errors.New("there are stages unreleased when Flush is called")
 	}
@@ -309,6 +316,7 @@ func (p *PipelinedMemDB) Flush(force bool) (bool, error) {
 		if err != nil {
 			err = p.handleAlreadyExistErr(err)
 			p.flushingMemDB = nil
+			p.flushErr = err
 			return false, err
 		}
 	}
@@ -379,13 +387,14 @@ func (p *PipelinedMemDB) FlushWait() error {
 		err := <-p.errCh
 		if err != nil {
 			err = p.handleAlreadyExistErr(err)
+			p.flushErr = err
 		}
 		// cleanup the flushingMemDB so the next call of FlushWait will not wait for the error channel.
 		p.flushingMemDB = nil
 		p.flushWaitDuration += time.Since(now)
 		return err
 	}
-	return nil
+	return p.flushErr
 }
 
 func (p *PipelinedMemDB) handleAlreadyExistErr(err error) error {
